@@ -64,12 +64,13 @@ def check(ctx):
             raise AnalysisBroken('expected one bin index expression, found %d' % len(truncs))
         tr = truncs.pop()
         pos = tr[1]
-        if not (isinstance(pos, tuple) and pos[0] == '*' and pos[2] == bins):
+        if not (isinstance(pos, tuple) and pos[0] == '*' and bins in (pos[1], pos[2])):
             raise AnalysisBroken('position is not u * bins')
+        uu = pos[1] if pos[2] == bins else pos[2]
         U, I = sym('U'), sym('I')
-        m = {tr: I, pos[1]: U}
-        Xs = T.subst(T.subst(X, {tr: I}), {pos[1]: U})
-        Fs = T.subst(T.subst(factor, {tr: I}), {pos[1]: U})
+        m = {tr: I, uu: U}
+        Xs = T.subst(T.subst(X, {tr: I}), {uu: U})
+        Fs = T.subst(T.subst(factor, {tr: I}), {uu: U})
         xs = fld(PDF, 'x')
         row = mul(i, add(bins, ONE))
         L = sel(xs, add(row, I))
@@ -181,7 +182,7 @@ def check(ctx):
             s, ex = summarise(p, a, opaque={tgt})
             calls = [e for e, l in flat_effects(s.effects) if e['kind'] == 'hcall' and e['name'] == tgt]
             wv = ('vcall', 'hep::mc_point::weight', fld(sym('this'), 'point_'))
-            if len(calls) == 1 and calls[0]['pc'] == () and calls[0]['args'][-1] == mul(sym('value'), wv):
+            if len(calls) == 1 and calls[0]['pc'] == () and T.same(calls[0]['args'][-1], mul(sym(a.params[-1].name), wv)):
                 ctx.holds('R3.projector', fsite(a), 'distribution values are multiplied by the weight of '
                           'the point exactly once')
             else:
